@@ -435,11 +435,24 @@ class ExprMixin:
                     out.extend(v.args)
                 elif n is not None:
                     out.extend(self.elem(v, i) for i in range(n))
+                elif v.op in ("DictValues", "DictKeys", "Zip", "Enumerate", "DictItems") and \
+                        self._dict_view_items(v) is not None:
+                    out.extend(self._dict_view_items(v))
                 else:
                     out.append(self.mk("Starred", (v,), None, site))
             else:
                 out.append(self.eval(x, fr, st))
         return out
+
+    def _dict_view_items(self, v):
+        """elements of a view of a dictionary with known slots (values(), keys(), items()) or of a zip / enumerate
+        of known sequences, else None"""
+        if v.op == "DictValues" and v.args and v.args[0].op == "Dict" and not any(k[0] == "**" for k in v.args[0].attr):
+            d = v.args[0]
+            return [d.args[i] if kd[0] == "k" else d.args[i + 1] for kd, i in self._dict_key_slots(d)]
+        if v.op in ("DictKeys", "Zip", "Enumerate"):
+            return self.known_items(v)
+        return None
 
     def ev_Tuple(self, e, fr, st):
         site = self.site_of(e, fr)
